@@ -27,8 +27,13 @@ Definition render (w : nat) (eol : str) (final_nl : bool) (recs : list record) :
 Definition eol_ok (eol : str) : Prop := eol = [LF] \/ eol = [CR; LF].
 Definition residue_ok (c : ascii) : bool :=
   negb (Ascii.eqb c LF) && negb (Ascii.eqb c CR) && negb (Ascii.eqb c GT).
+(* a record name is what bytes.split() takes as one word: no TAB LF VT FF CR or space
+   (FS GS RS US are ordinary bytes there; they only matter when the .fai cache is read back
+   with str.split(): [name_loadable]) *)
 Definition name_ok (n : str) : Prop :=
-  n <> [] /\ forallb (fun c => negb (is_space c)) n = true.
+  n <> [] /\ forallb (fun c => negb (is_bspace c)) n = true.
+Definition name_loadable (n : str) : Prop :=
+  forallb (fun c => negb (is_space c)) n = true.
 (* description: empty, or starts with a blank and has no line break *)
 Definition desc_ok (d : str) : Prop :=
   match d with
